@@ -32,11 +32,13 @@ THEOREMS = [P + n for n in [
     "rewrite_between_sound", "simplify_not_sound", "conn_const_sound", "conn_const_exact", "bin_pair_sound",
     "simplify_neg_neg_sound", "simplify_equality_sound", "simplify_parens_sound", "flatten_sound",
     "simplify_conditionals_if_sound", "simplify_conditionals_sound", "simplify_conditionals_needs_first_branch",
-    "simplify_coalesce_head_sound", "simplify_coalesce_cmp_sound", "simplify_coalesce_null_constant_counterexample",
+    "simplify_coalesce_head_sound", "simplify_coalesce_cmp_sound", "simplify_coalesce_needs_nonnull_constant",
+    "simplify_comparison_bounds_sound", "simplify_comparison_tie_needed",
     "checkStep_sound", "checkStep_exact", "nonnull_needed", "nonnull_needed_absorb",
     "simplify_comparison_and_false_counterexample", "normalize_result", "while_changing_sound",
 ]] + ["SqlglotModel.Simplify.ttCheck_sound", "SqlglotModel.Simplify.checkAll_sound",
-                   "SqlglotModel.Simplify.caseLoop_sound", "SqlglotModel.Simplify.evalCoalesce_split"]
+                   "SqlglotModel.Simplify.caseLoop_sound", "SqlglotModel.Simplify.evalCoalesce_split",
+                   "SqlglotModel.Simplify.splitAtConst_ends", "SqlglotModel.Simplify.endsCoalesce_ne_null"]
 
 KNOWN_PRE = ["rewrite_between", "uniq_sort", "absorb_and_eliminate", "simplify_concat", "simplify_conditionals", "propagate_constants"]
 KNOWN_POST = ["simplify_not", "flatten", "simplify_connectors", "remove_complements", "simplify_coalesce", "simplify_literals",
@@ -367,6 +369,7 @@ def differing_envs(a, b, limit=40000):
 BCOLS, ICOLS, NB, NI = ["b0", "b1", "b2"], ["i0", "i1"], ["c0"], ["n0"]
 LITS = [0, 1, 2, 3, 5]
 CMPS = ["=", "<>", "<", "<=", ">", ">="]
+COMPL = {"=": "<>", "<>": "=", "<": ">=", "<=": ">", ">": "<=", ">=": "<"}
 
 
 def lit(rng):
@@ -461,7 +464,7 @@ def templates(rng, cols):
     conn = rng.choice(["AND", "OR"]); other = "OR" if conn == "AND" else "AND"
     t = [
         f"{c} {o1} {l1} {conn} {c} {o2} {l2}", f"{c} {o1} {l1} {conn} {c} {o2} {l1}", f"{c} {o2} {l1} {conn} {c} {o1} {l1} {conn} {A}", f"{l1} {o1} {c} {conn} {c} {o2} {l2}", f"{l1} {o1} {c} {conn} {l2} {o2} {c}",
-        f"NOT ({c} {o1} {l1} {conn} {c} {o2} {l2})", f"{c} {o1} {l1} {conn} {c} {o2} {l2} {conn} {A}",
+        f"NOT ({c} {o1} {l1} {conn} {c} {o2} {l2})", f"NOT {c} {o1} {l1} {conn} {c} {o2} {l1}", f"{c} {o1} {l1} {conn} NOT {c} {o2} {l1} {conn} {A}", f"{c} {o1} {l1} {conn} {c} {o2} {l2} {conn} {A}",
         f"{c} {o1} {l1} {conn} {c} {o2} {l2} {conn} {c} {o1} {l3}",
         f"{A} {conn} NOT {A}", f"{A} {conn} {B} {conn} NOT {A}", f"{A} {conn} ({A} {other} {B})", f"{A} {conn} (NOT {A} {other} {B})",
         f"({A} {other} {B}) {conn} ({A} {other} NOT {B})", f"({A} {other} {B}) {conn} ({C} {other} {B})",
@@ -834,6 +837,8 @@ def run_api(api, e, dialect):
         return S.simplify(e, constant_propagation=True, dialect=dialect)
     if api == "simplify_co":
         return S.simplify(e, coalesce_simplification=True, dialect=dialect)
+    if api == "connectors":  # the pair tables reached directly, operands in the order written (no uniq_sort / sort pass first)
+        return S.Simplifier(dialect=dialect).simplify_connectors(e)
     if api == "cnf":
         return N.normalize(e, dnf=False, max_distance=24)
     if api == "dnf":
@@ -1180,8 +1185,14 @@ def run(chk: Check) -> None:
             for l1, l2 in ((2, 2), (1, 3), (3, 1)):
                 for conn in ("AND", "OR"):
                     one(f"i0 {o1} {l1} {conn} i0 {o2} {l2}", "untyped", "simplify", dlist[0])
-    corr_share = 0.55
-    while time.time() - t0 < budget * corr_share and len(chk.violations) < 6:
+                    # both operand orders reach _simplify_connectors / _simplify_comparison unsorted: directly ...
+                    one(f"i0 {o1} {l1} {conn} i0 {o2} {l2}", "untyped", "connectors", dlist[0])
+                    # ... and through the pipeline, where a NOT-complement is rewritten in the same pass and not re-sorted
+                    one(f"NOT i0 {COMPL[o1]} {l1} {conn} i0 {o2} {l2}", "untyped", "simplify", dlist[0])
+                    one(f"i0 {o1} {l1} {conn} NOT i0 {COMPL[o2]} {l2}", "untyped", "simplify", dlist[0])
+    chk.cov["sweep_s"] = round(time.time() - t0, 1)
+    t_rand = time.time()
+    while time.time() - t_rand < budget * 0.45 and len(chk.violations) < 6:
         variant = rng.choice(["untyped", "typed", "nonnull"])
         sql = gen_sql(rng, nonnull=variant == "nonnull")
         sqls.append(sql)
